@@ -92,6 +92,7 @@ func copyDir(src, dst string) {
 }
 
 type fixture struct {
+	loose map[string][]byte // URL -> content that a corrupt layout still holds and serves (its blobs)
 	kind   string
 	repos  []string
 	w      *vh.World  // model of what the fixture holds (populated fixtures)
@@ -166,6 +167,7 @@ func buildFixture(r *vh.Run, rng *rand.Rand, root string, i int) fixture {
 		b := []byte(fmt.Sprintf("content next to a truncated index %d", i))
 		_ = os.WriteFile(filepath.Join(p, "blobs", "sha256", vh.DigestOf("sha256", b)[7:]), b, 0o644)
 		f.repos = []string{"t"}
+		f.loose = map[string][]byte{"/v2/t/blobs/" + vh.DigestOf("sha256", b): b}
 	}
 	return f
 }
@@ -226,6 +228,16 @@ func readonlyBatch(r *vh.Run, i int) {
 	}
 	// ---- the content of the fixture is served
 	serveCheck := func(when string) bool {
+		for u, want := range f.loose {
+			// "every pre-existing directory content including ... corrupt layouts", "while still serving its content":
+			// what cannot be listed any more is still there to be read by digest
+			rs := do(vh.Req{Method: "GET", URL: u})
+			if rs.Status != 200 || string(rs.Body) != string(want) {
+				viol("content-not-served:blob-of-a-corrupt-layout", fmt.Sprintf("%s: %s of the fixture (a layout whose index.json is cut off) answers %d on the %s store (read-only %v)", when, u, rs.Status, kind, ro))
+				return false
+			}
+			r.Count("corrupt_layout_blob_reads", 1)
+		}
 		if f.w != nil {
 			for _, rp := range f.repos {
 				s := f.w.RealSnapVia(srv, rp)
@@ -392,7 +404,7 @@ func readonlyBatch(r *vh.Run, i int) {
 		p := reqs[rng.Intn(len(reqs))]
 		rs := do(p.rq)
 		r.Distinct("request_kinds", p.rq.Method+" "+strings.SplitN(strings.TrimPrefix(p.rq.URL, "/v2/"+rp+"/"), "/", 2)[0])
-		if rs.Status >= 500 && f.kind != "truncated-index" && f.kind != "bad-layout-file" { // (a repository whose index cannot be parsed may fail to load; refusals are judged below)
+		if rs.Status >= 500 {
 			viol("5xx", fmt.Sprintf("%s answered %d on a %s store (read-only %v)", vh.ShortReq(p.rq), rs.Status, kind, ro))
 			ok = false
 		}
